@@ -1,2 +1,7 @@
 import PyOak.Props.C20
 import PyOak.Props.C20Text
+import PyOak.Props.C20Heap
+import PyOak.Props.C20HeapMatch
+import PyOak.Props.C20ParentClean
+import PyOak.Props.C20HeapWalk
+import PyOak.Props.C20HeapRun
